@@ -283,6 +283,51 @@ theorem C34_default_qubits_least (used : List Nat) : ∀ (ps : List Nat) (cur : 
 
 /-! ### Default resolution of a body -/
 
+/-- Label part, whatever qubit resolver is used alongside: if the target resolver is the default
+table of THIS body, every label placeholder is replaced, consistently, injectively, and never by an
+existing label or jump target. -/
+theorem C34_targets_with (body : List Instr) (dt : List (Nat × String))
+    (hdt : defaultTargetResolutions body = some dt) (qr : Nat → Option Nat) :
+    TargetsResolved body (resolveWith (fun k => lookupS k dt) qr body) := by
+  obtain ⟨hcov, hfresh, hpw⟩ := C34_default_target_table body dt hdt
+  have hmem : ∀ p ∈ tpairs body (resolveWith (fun k => lookupS k dt)
+      qr body),
+      ∃ t ∈ getTargets body, p = (t, t.resolve (fun k => lookupS k dt)) := by
+    intro p hp
+    rw [tpairs_resolve] at hp
+    obtain ⟨t, ht, rfl⟩ := List.mem_map.mp hp
+    exact ⟨t, ht, rfl⟩
+  refine ⟨?_, ?_, ?_⟩
+  · intro p hp
+    obtain ⟨t, ht, rfl⟩ := hmem p hp
+    cases t with
+    | fixed s => simp [Target.resolve]
+    | placeholder k b =>
+      obtain ⟨l, hl⟩ := hcov k b ht
+      simp [Target.resolve, hl]
+  · intro p hp p' hp' k b k' b' h1 h2
+    obtain ⟨t, ht, rfl⟩ := hmem p hp
+    obtain ⟨t', ht', rfl⟩ := hmem p' hp'
+    simp only at h1 h2
+    subst h1 h2
+    obtain ⟨l, hl⟩ := hcov k b ht
+    obtain ⟨l', hl'⟩ := hcov k' b' ht'
+    simp only [Target.resolve, hl, hl']
+    constructor
+    · rintro rfl; rw [hl] at hl'; simp at hl'; simp [hl']
+    · intro heq
+      simp only [Target.fixed.injEq] at heq
+      have := pairwise_ne_inj hpw (lookupS_mem hl) (lookupS_mem hl') heq
+      simpa using congrArg Prod.fst this
+  · intro p hp k b h1
+    obtain ⟨t, ht, rfl⟩ := hmem p hp
+    simp only at h1
+    subst h1
+    obtain ⟨l, hl⟩ := hcov k b ht
+    simp only [Target.resolve, hl]
+    exact hfresh (k, l) (lookupS_mem hl)
+
+
 /-- **C34 for label targets (full strength)**: after default resolution every label placeholder of
 the body is replaced, the same placeholder by the same label everywhere, distinct placeholders by
 distinct labels, and no resolved label equals an existing label or jump target. -/
@@ -294,43 +339,63 @@ theorem C34_targets (body out : List Instr) (h : resolvePlaceholders body = some
   | some dt =>
     simp only [hdt, Option.map_some, Option.some.injEq] at h
     subst h
-    obtain ⟨hcov, hfresh, hpw⟩ := C34_default_target_table body dt hdt
-    have hmem : ∀ p ∈ tpairs body (resolveWith (fun k => lookupS k dt)
-        (fun k => lookupN k (defaultQubitResolutions body)) body),
-        ∃ t ∈ getTargets body, p = (t, t.resolve (fun k => lookupS k dt)) := by
-      intro p hp
-      rw [tpairs_resolve] at hp
-      obtain ⟨t, ht, rfl⟩ := List.mem_map.mp hp
-      exact ⟨t, ht, rfl⟩
-    refine ⟨?_, ?_, ?_⟩
-    · intro p hp
-      obtain ⟨t, ht, rfl⟩ := hmem p hp
-      cases t with
-      | fixed s => simp [Target.resolve]
-      | placeholder k b =>
-        obtain ⟨l, hl⟩ := hcov k b ht
-        simp [Target.resolve, hl]
-    · intro p hp p' hp' k b k' b' h1 h2
-      obtain ⟨t, ht, rfl⟩ := hmem p hp
-      obtain ⟨t', ht', rfl⟩ := hmem p' hp'
-      simp only at h1 h2
-      subst h1 h2
-      obtain ⟨l, hl⟩ := hcov k b ht
-      obtain ⟨l', hl'⟩ := hcov k' b' ht'
-      simp only [Target.resolve, hl, hl']
-      constructor
-      · rintro rfl; rw [hl] at hl'; simp at hl'; simp [hl']
-      · intro heq
-        simp only [Target.fixed.injEq] at heq
-        have := pairwise_ne_inj hpw (lookupS_mem hl) (lookupS_mem hl') heq
-        simpa using congrArg Prod.fst this
-    · intro p hp k b h1
-      obtain ⟨t, ht, rfl⟩ := hmem p hp
-      simp only at h1
-      subst h1
-      obtain ⟨l, hl⟩ := hcov k b ht
-      simp only [Target.resolve, hl]
-      exact hfresh (k, l) (lookupS_mem hl)
+    exact C34_targets_with body dt hdt _
+
+/-- Qubit part, whatever target resolver is used alongside: if the qubit resolver is the default
+table of THIS body, then on the qubits `get_qubits` reports every placeholder is replaced,
+consistently, injectively, by indices that are not fixed qubits of the body as it stands. -/
+theorem C34_qubits_with (body : List Instr) (tr : Nat → Option String) :
+    QubitsResolved Instr.getQubits body
+      (resolveWith tr (fun k => lookupN k (defaultQubitResolutions body)) body) := by
+  obtain ⟨hkeys, hfresh, hpw⟩ := C34_default_qubit_table body
+  have hcov : ∀ k, Qubit.placeholder k ∈ body.flatMap Instr.getQubits →
+      ∃ n, lookupN k (defaultQubitResolutions body) = some n := by
+    intro k hm
+    apply lookupN_some_of_key
+    rw [hkeys]
+    simp only [qubitPlaceholders]
+    rw [mem_dedupNat]
+    right
+    exact List.mem_filterMap.mpr ⟨_, hm, rfl⟩
+  have hmem : ∀ p ∈ qpairs Instr.getQubits body (resolveWith tr
+      (fun k => lookupN k (defaultQubitResolutions body)) body),
+      ∃ q ∈ body.flatMap Instr.getQubits,
+        p = (q, q.resolve (fun k => lookupN k (defaultQubitResolutions body))) := by
+    intro p hp
+    rw [qpairs_resolve] at hp
+    obtain ⟨q, hq, rfl⟩ := List.mem_map.mp hp
+    exact ⟨q, hq, rfl⟩
+  refine ⟨?_, ?_, ?_⟩
+  · intro p hp
+    obtain ⟨q, hq, rfl⟩ := hmem p hp
+    cases q with
+    | fixed n => simp [Qubit.resolve]
+    | var s => simp [Qubit.resolve]
+    | placeholder k =>
+      obtain ⟨n, hn⟩ := hcov k hq
+      simp [Qubit.resolve, hn]
+  · intro p hp p' hp' k k' h1 h2
+    obtain ⟨q, hq, rfl⟩ := hmem p hp
+    obtain ⟨q', hq', rfl⟩ := hmem p' hp'
+    simp only at h1 h2
+    subst h1 h2
+    obtain ⟨n, hn⟩ := hcov k hq
+    obtain ⟨n', hn'⟩ := hcov k' hq'
+    simp only [Qubit.resolve, hn, hn']
+    constructor
+    · rintro rfl; rw [hn] at hn'; simp at hn'; simp [hn']
+    · intro heq
+      simp only [Qubit.fixed.injEq] at heq
+      have := pairwise_lt_inj hpw (lookupN_mem hn) (lookupN_mem hn') heq
+      simpa using congrArg Prod.fst this
+  · intro p hp k h1
+    obtain ⟨q, hq, rfl⟩ := hmem p hp
+    simp only at h1
+    subst h1
+    obtain ⟨n, hn⟩ := hcov k hq
+    simp only [Qubit.resolve, hn]
+    exact hfresh (k, n) (lookupN_mem hn)
+
 
 /-- **C34 for qubits, as far as the code goes**: on the qubits that `get_qubits` reports, default
 resolution replaces every placeholder, consistently and injectively, by indices that are not fixed
@@ -343,54 +408,7 @@ theorem C34_qubits_visible (body out : List Instr) (h : resolvePlaceholders body
   | some dt =>
     simp only [hdt, Option.map_some, Option.some.injEq] at h
     subst h
-    obtain ⟨hkeys, hfresh, hpw⟩ := C34_default_qubit_table body
-    have hcov : ∀ k, Qubit.placeholder k ∈ body.flatMap Instr.getQubits →
-        ∃ n, lookupN k (defaultQubitResolutions body) = some n := by
-      intro k hm
-      apply lookupN_some_of_key
-      rw [hkeys]
-      simp only [qubitPlaceholders]
-      rw [mem_dedupNat]
-      right
-      exact List.mem_filterMap.mpr ⟨_, hm, rfl⟩
-    have hmem : ∀ p ∈ qpairs Instr.getQubits body (resolveWith (fun k => lookupS k dt)
-        (fun k => lookupN k (defaultQubitResolutions body)) body),
-        ∃ q ∈ body.flatMap Instr.getQubits,
-          p = (q, q.resolve (fun k => lookupN k (defaultQubitResolutions body))) := by
-      intro p hp
-      rw [qpairs_resolve] at hp
-      obtain ⟨q, hq, rfl⟩ := List.mem_map.mp hp
-      exact ⟨q, hq, rfl⟩
-    refine ⟨?_, ?_, ?_⟩
-    · intro p hp
-      obtain ⟨q, hq, rfl⟩ := hmem p hp
-      cases q with
-      | fixed n => simp [Qubit.resolve]
-      | var s => simp [Qubit.resolve]
-      | placeholder k =>
-        obtain ⟨n, hn⟩ := hcov k hq
-        simp [Qubit.resolve, hn]
-    · intro p hp p' hp' k k' h1 h2
-      obtain ⟨q, hq, rfl⟩ := hmem p hp
-      obtain ⟨q', hq', rfl⟩ := hmem p' hp'
-      simp only at h1 h2
-      subst h1 h2
-      obtain ⟨n, hn⟩ := hcov k hq
-      obtain ⟨n', hn'⟩ := hcov k' hq'
-      simp only [Qubit.resolve, hn, hn']
-      constructor
-      · rintro rfl; rw [hn] at hn'; simp at hn'; simp [hn']
-      · intro heq
-        simp only [Qubit.fixed.injEq] at heq
-        have := pairwise_lt_inj hpw (lookupN_mem hn) (lookupN_mem hn') heq
-        simpa using congrArg Prod.fst this
-    · intro p hp k h1
-      obtain ⟨q, hq, rfl⟩ := hmem p hp
-      simp only at h1
-      subst h1
-      obtain ⟨n, hn⟩ := hcov k hq
-      simp only [Qubit.resolve, hn]
-      exact hfresh (k, n) (lookupN_mem hn)
+    exact C34_qubits_with body _
 
 /-- The projection is well formed: only instructions of the kinds that carry qubits (the table
 `visibleKinds`) come with a non-empty qubit list.  The harness's traversal returns no qubits for
@@ -485,6 +503,81 @@ theorem C34_custom_full (tr : Nat → Option String) (qr : Nat → Option Nat) (
   intro p hp
   rw [ep] at hp
   exact hq p hp
+
+/-! ### One call, and sequences of calls on the same program -/
+
+private theorem wellProjected_resolve (tr : Nat → Option String) (qr : Nat → Option Nat) (body : List Instr)
+    (hv : wellProjected body = true) : wellProjected (resolveWith tr qr body) = true := by
+  simp only [wellProjected, resolveWith, List.all_map] at hv ⊢
+  apply List.all_eq_true.mpr
+  intro i hi
+  have := List.all_eq_true.mp hv i hi
+  cases i with
+  | tgt k t s => simp [Instr.resolve]
+  | qs k s l =>
+    by_cases hvk : visible k = true
+    · simp [Instr.resolve, hvk]
+    · simp only [hvk, Bool.false_or] at this
+      simp [Instr.resolve, hvk, this]
+
+private theorem qubitsResolved_all_of_visible (tr : Nat → Option String) (qr : Nat → Option Nat)
+    (body : List Instr) (hv : wellProjected body = true)
+    (hq : QubitsResolved Instr.getQubits body (resolveWith tr qr body)) :
+    QubitsResolved Instr.allQubits body (resolveWith tr qr body) := by
+  have e1 := allQubits_eq_getQubits hv
+  have e2 := allQubits_eq_getQubits (wellProjected_resolve tr qr body hv)
+  have ep : qpairs Instr.allQubits body (resolveWith tr qr body) =
+      qpairs Instr.getQubits body (resolveWith tr qr body) := by
+    simp only [qpairs, e1, e2]
+  exact ⟨by rw [ep]; exact hq.replaced, by rw [ep]; exact hq.consistent,
+    by rw [ep, e1]; exact hq.fresh⟩
+
+/-- **One call, any entry point, any body**: the call succeeds, the result is again well
+projected, and it meets `StepSpec` — default parts are resolved completely, consistently,
+injectively and freshly w.r.t. the body as it stands before the call; custom parts replace exactly
+their domain. -/
+theorem C34_step (c : Call) (body : List Instr) (hv : wellProjected body = true) :
+    ∃ out, resolveMode c.mode c.tmap c.qmap body = some out ∧ wellProjected out = true ∧
+      StepSpec c body out := by
+  obtain ⟨mode, tmap, qmap⟩ := c
+  cases hdt : defaultTargetResolutions body with
+  | none => exact absurd hdt (C34_default_targets_total body)
+  | some dt =>
+    cases mode with
+    | default =>
+      refine ⟨resolveWith (fun k => lookupS k dt) (fun k => lookupN k (defaultQubitResolutions body)) body,
+        by simp [resolveMode, hdt], wellProjected_resolve _ _ _ hv, C34_skeleton _ _ _, ?_, ?_⟩
+      · exact C34_targets_with body dt hdt _
+      · exact qubitsResolved_all_of_visible _ _ _ hv (C34_qubits_with body _)
+    | custom =>
+      obtain ⟨h1, h2, h3⟩ := C34_custom_full (fun k => lookupS k tmap) (fun k => lookupN k qmap) body hv
+      exact ⟨resolveWith (fun k => lookupS k tmap) (fun k => lookupN k qmap) body,
+        by simp [resolveMode], wellProjected_resolve _ _ _ hv, h1, h3, h2⟩
+    | customTargets =>
+      refine ⟨resolveWith (fun k => lookupS k tmap) (fun k => lookupN k (defaultQubitResolutions body)) body,
+        by simp [resolveMode], wellProjected_resolve _ _ _ hv, C34_skeleton _ _ _, ?_, ?_⟩
+      · exact (C34_custom (fun k => lookupS k tmap) _ body).2
+      · exact qubitsResolved_all_of_visible _ _ _ hv (C34_qubits_with body _)
+    | customQubits =>
+      refine ⟨resolveWith (fun k => lookupS k dt) (fun k => lookupN k qmap) body,
+        by simp [resolveMode, hdt], wellProjected_resolve _ _ _ hv, C34_skeleton _ _ _, ?_, ?_⟩
+      · exact C34_targets_with body dt hdt _
+      · exact (C34_custom_full (fun k => lookupS k dt) (fun k => lookupN k qmap) body hv).2.1
+
+/-- **Any sequence of calls on the same program** (partial custom resolvers, then default, default
+twice, custom after default, …): every call succeeds and meets its specification relative to the
+body the previous call left — in particular a later default call never resolves a placeholder to a
+qubit that an earlier call made fixed. -/
+theorem C34_seq : ∀ (calls : List Call) (body : List Instr), wellProjected body = true →
+    ∃ outs, resolveSeq calls body = some outs ∧ SeqSpec calls body outs := by
+  intro calls
+  induction calls with
+  | nil => intro body _; exact ⟨[], rfl, rfl⟩
+  | cons c cs ih =>
+    intro body hv
+    obtain ⟨out, ho, hvo, hs⟩ := C34_step c body hv
+    obtain ⟨outs, hos, hss⟩ := ih out hvo
+    exact ⟨out :: outs, by simp [resolveSeq, ho, hos], out, outs, rfl, hs, hss⟩
 
 /-! ### The Bool checkers evaluated by the driver mean the Prop specification -/
 
@@ -608,6 +701,38 @@ theorem targetsCustomB_iff (tr : Nat → Option String) (body out : List Instr) 
 
 theorem sameSkeletonB_iff (body out : List Instr) : sameSkeletonB body out = true ↔ SameSkeleton body out := by
   simp [sameSkeletonB, SameSkeleton]
+
+theorem stepSpecB_iff (c : Call) (before after : List Instr) :
+    stepSpecB c before after = true ↔ StepSpec c before after := by
+  obtain ⟨mode, tmap, qmap⟩ := c
+  cases mode <;>
+    simp only [stepSpecB, StepSpec, Bool.and_eq_true, sameSkeletonB_iff, targetsResolvedB_iff,
+      targetsCustomB_iff, qubitsResolvedB_iff, qubitsCustomB_iff, and_assoc]
+
+theorem seqSpecB_iff : ∀ (calls : List Call) (body : List Instr) (outs : List (List Instr)),
+    seqSpecB calls body outs = true ↔ SeqSpec calls body outs := by
+  intro calls
+  induction calls with
+  | nil => intro body outs; simp [seqSpecB, SeqSpec]
+  | cons c cs ih =>
+    intro body outs
+    cases outs with
+    | nil => simp [seqSpecB, SeqSpec]
+    | cons o rest =>
+      simp only [seqSpecB, SeqSpec, Bool.and_eq_true, stepSpecB_iff, ih]
+      constructor
+      · intro ⟨h1, h2⟩; exact ⟨o, rest, rfl, h1, h2⟩
+      · rintro ⟨o', rest', heq, h1, h2⟩
+        simp only [List.cons.injEq] at heq
+        obtain ⟨rfl, rfl⟩ := heq
+        exact ⟨h1, h2⟩
+
+/-- the seeded two-call scenario: `CZ p1 p2; CNOT p1 p3`, first a custom qubit resolver mapping only
+p1 ↦ 0, then the default resolver — p2 and p3 must avoid the now-fixed qubit 0 -/
+example : resolveSeq [⟨.custom, [], [(0, 0)]⟩, ⟨.default, [], []⟩]
+    [.qs "Gate" "CZ 0 0" [.placeholder 0, .placeholder 1], .qs "Gate" "CNOT 0 0" [.placeholder 0, .placeholder 2]]
+    = some [[.qs "Gate" "CZ 0 0" [.fixed 0, .placeholder 1], .qs "Gate" "CNOT 0 0" [.fixed 0, .placeholder 2]],
+            [.qs "Gate" "CZ 0 0" [.fixed 0, .fixed 1], .qs "Gate" "CNOT 0 0" [.fixed 0, .fixed 2]]] := by decide
 
 /-! ### Regression witnesses of the repaired defect (fix: a86534e)
 
